@@ -5,7 +5,7 @@ From PV Require Export C20.Spec.
 
 Definition res_eqb (a b : res) : bool :=
   match a, b with
-  | RNoSuch, RNoSuch | RZombie, RZombie | RDenied, RDenied | RRaw, RRaw | RVal, RVal | RTimeout, RTimeout => true
+  | RNoSuch, RNoSuch | RZombie, RZombie | RDenied, RDenied | RRaw, RRaw | RVal, RVal | RTimeout, RTimeout | RRawProbe, RRawProbe => true
   | _, _ => false
   end.
 Lemma res_eqb_eq a b : res_eqb a b = true <-> a = b.
@@ -120,6 +120,24 @@ Definition ablock_ok (b : lblock) : bool :=
                        && gout_ok (Some (all_outcome (l_plat b) (l_meth b) (l_site b) c)) g) (conds (l_plat b)) (l_outs b).
 Definition ablocks_complete (bs abs : list lblock) : bool :=
   forallb (fun b => existsb (fun a => plat_eqb (l_plat a) (l_plat b) && String.eqb (l_meth a) (l_meth b)) abs) bs.
+
+(* double fault (call fails with e1, the error path's probes with e2): blocks in the order of probe_conds *)
+Definition gout_in (allowed : list res) (g : gout) : bool :=
+  match g with
+  | GNotFired => true
+  | GX r pid_ok name_ok => existsb (res_eqb r) allowed && pid_ok && name_ok
+  | GOther => false
+  end.
+Definition prblock_ok (b : lblock) : bool :=
+  forallb2 (fun q g => match q with (e1, e2, z) =>
+              (known_probe_raw (l_plat b) (l_meth b) (l_site b) e1 e2 z
+               || gout_in (probe_allowed (l_plat b) (l_meth b) (l_site b) e1 e2 z) g)
+              && gout_ok (Some (probe_outcome (l_plat b) (l_meth b) (l_site b) e1 e2 z)) g end)
+           (probe_conds (l_plat b)) (l_outs b).
+Definition prblocks_complete (bs prs : list lblock) : bool :=
+  forallb (fun b => match l_plat b with Windows => true | _ =>
+                      existsb (fun a => plat_eqb (l_plat a) (l_plat b) && String.eqb (l_meth a) (l_meth b)
+                                        && String.eqb (l_site a) (l_site b)) prs end) bs.
 
 Definition block_model_ok (b : lblock) : bool :=
   forallb2 (fun c g => gout_ok (Some (method_outcome (l_plat b) (l_meth b) (l_site b) c)) g) (conds (l_plat b)) (l_outs b).
